@@ -43,6 +43,25 @@ struct TaggedStorage
 	friend bool operator == (const TaggedStorage & a, const TaggedStorage & b) { return a.tag == b.tag && a.text == b.text; }
 	friend bool operator < (const TaggedStorage & a, const TaggedStorage & b) { return a.tag < b.tag || (a.tag == b.tag && a.text < b.text); }
 };
+// value-storing storage that forgets the type: every arithmetic value is kept as a double, so ids built from values of
+// different types can hold equal stored values while their digests differ (int 5 and UserKey{5}, whose hash is scaled)
+struct NumStorage
+{
+	bool isText = false;
+	double num = 0;
+	std::string text;
+	NumStorage() {}
+	NumStorage(const int & v) : num(v) {}
+	NumStorage(const long & v) : num((double)v) {}
+	NumStorage(const unsigned & v) : num(v) {}
+	NumStorage(const char & v) : num(v) {}
+	NumStorage(const bool & v) : num(v ? 1 : 0) {}
+	NumStorage(const Color & v) : num((int)v) {}
+	NumStorage(const std::string & v) : isText(true), text(v) {}
+	NumStorage(const UserKey & v) : num(v.a) {}
+	friend bool operator == (const NumStorage & a, const NumStorage & b) { return a.isText == b.isText && (a.isText ? a.text == b.text : a.num == b.num); }
+	friend bool operator < (const NumStorage & a, const NumStorage & b) { return a.isText != b.isText ? ! a.isText : (a.isText ? a.text < b.text : a.num < b.num); }
+};
 // opaque storage supporting neither
 struct OpaqueStorage
 {
@@ -99,10 +118,23 @@ struct ILaws
 	virtual size_t hash(int a) = 0;
 	virtual unsigned long long digest(int a) = 0;
 	virtual bool comparableStorage() const = 0;
+	// what the (comparable) storage itself calls equal; the default is "same type and same content"
+	virtual bool storageEqual(int a, int b) const = 0;
 	// dispatch: register listeners under ids `regs`, dispatch id d through an ordered and a hashed dispatcher; returns the listeners run
 	virtual std::vector<int> dispatch(const std::vector<int> & regs, int d, bool hashed) = 0;
 };
 
+template <typename Storage> struct StorageEq { static bool eq(int a, int b) { return sameValue(a, b); } };
+template <> struct StorageEq<NumStorage>
+{
+	static bool eq(int a, int b) {
+		const Val & x = kVals[a], & y = kVals[b];
+		if((x.type == 6) != (y.type == 6)) return false;
+		if(x.type == 6) return std::string(x.str) == y.str;
+		auto num = [](const Val & v) -> double { return v.type == 2 ? (double)(unsigned)v.num : v.type == 3 ? (double)(char)v.num : v.type == 4 ? (v.num != 0 ? 1.0 : 0.0) : v.type == 0 || v.type == 5 || v.type == 7 ? (double)(int)v.num : (double)v.num; };
+		return num(x) == num(y);
+	}
+};
 template <template <typename> class Digester, typename Storage, bool Comparable>
 struct Laws : ILaws
 {
@@ -112,6 +144,7 @@ struct Laws : ILaws
 	size_t hash(int a) override { return std::hash<Id>()(makeId<Id>(a)); }
 	unsigned long long digest(int a) override { return (unsigned long long)makeId<Id>(a).getDigest(); }
 	bool comparableStorage() const override { return Comparable; }
+	bool storageEqual(int a, int b) const override { return StorageEq<Storage>::eq(a, b); }
 	struct PolMap { template <typename K, typename V> using Map = std::map<K, V>; };
 	struct PolHash { template <typename K, typename V> using Map = std::unordered_map<K, V>; };
 	template <typename Pol> std::vector<int> run(const std::vector<int> & regs, int d) {
@@ -129,7 +162,7 @@ struct Laws : ILaws
 	}
 };
 
-const int kConfigs = 9;
+const int kConfigs = 10;
 ILaws * makeLaws(int cfg)
 {
 	switch(cfg) {
@@ -141,7 +174,8 @@ ILaws * makeLaws(int cfg)
 	case 5: return new Laws<Mod4Digest, TaggedStorage, true>();
 	case 6: return new Laws<ConstDigest, eventpp::EmptyAnyStorage, false>();
 	case 7: return new Laws<ConstDigest, OpaqueStorage, false>();
-	default: return new Laws<ConstDigest, TaggedStorage, true>();
+	case 8: return new Laws<ConstDigest, TaggedStorage, true>();
+	default: return new Laws<std::hash, NumStorage, true>();
 	}
 }
 
@@ -171,7 +205,7 @@ struct Checker
 		if(dEq && ! sameValue(a, b)) collision = true;
 		if(l.comparableStorage()) {
 			// value-storing comparable storage: ids are equal exactly when digest and stored value are equal
-			if(e != (dEq && sameValue(a, b))) v.fail("anyid.eq.value", "C18", "with a comparable value storage, == is " + std::to_string(e) + " for " + who + " (digests equal: " + std::to_string(dEq) + ", same value: " + std::to_string(sameValue(a, b)) + ")");
+			if(e != (dEq && l.storageEqual(a, b))) v.fail("anyid.eq.value", "C18", "with a comparable value storage, == is " + std::to_string(e) + " for " + who + " (digests equal: " + std::to_string(dEq) + ", stored values equal: " + std::to_string(l.storageEqual(a, b)) + ")");
 		}
 		else if(e != dEq) v.fail("anyid.eq.digest", "C18", "without a comparable storage, == must be digest equality: " + who);
 	}
@@ -268,7 +302,7 @@ std::string enumerate(const std::string &, const std::function<bool (const Progr
 			if(! sink(p)) return "aborted at the first failure";
 		}
 	}
-	return "9 configurations (3 digesters x 3 storages) x all 26^2 pairs and 26^3 triples of the value pool, plus dispatches of every id against registered triples";
+	return "10 configurations (3 digesters x 3 storages, and std::hash with a storage that forgets the type) x all 26^2 pairs and 26^3 triples of the value pool, plus dispatches of every id against registered triples";
 }
 
 } // namespace
